@@ -35,7 +35,7 @@ C.lookup('simulator', 'DeterministicSimulator._helper_simulate').opt(result=_sum
 
 def likelihood_contract(norm, same_keys):
     c = Contract('inference', 'DeterministicLikelihood.get_log_likelihood', ['C15'],
-                 variant='norm=%d,%s' % (norm, 'same-condition-keys' if same_keys else 'different-condition-keys'))
+                 variant='norm=%d,%s' % (norm, {True: 'same-condition-keys', False: 'different-condition-keys', 'empty': 'second-condition-empty'}[same_keys]))
 
     def cself(ex, cls):
         fr = ex.frame
@@ -52,7 +52,9 @@ def likelihood_contract(norm, same_keys):
             tps = Arr(ex.fresh('grids', A2), [2, 2], REAL, 'ndarray', 'grids')
             bd = ex.instantiate(ex.program.find_class('BulkData'), [tps, data, ['Z', 'X'], 2], {})
             ic = [{'X': ex.fresh('icX0', REAL)}, {'Y': ex.fresh('icY1', REAL), 'X': ex.fresh('icX1', REAL)}]
-            if same_keys:
+            if same_keys == 'empty':          # a control trajectory without parameter condition after one with a condition
+                pc = [{'a': ex.fresh('a0', REAL)}, {}]
+            elif same_keys:
                 pc = [{'a': ex.fresh('a0', REAL)}, {'a': ex.fresh('a1', REAL)}]
             else:
                 pc = [{'a': ex.fresh('a0', REAL)}, {'b': ex.fresh('b1', REAL)}]
@@ -109,3 +111,4 @@ def likelihood_contract(norm, same_keys):
 for norm in (1, 2, 3):
     likelihood_contract(norm, True)
     likelihood_contract(norm, False)
+    likelihood_contract(norm, 'empty')
